@@ -12,6 +12,7 @@
 // output, one line per case:
 //   W <cat wheels> ; <draws> # <count> # <dump> ; ...
 #include <bits/stdc++.h>
+#include <unistd.h>
 
 #define private public
 #define protected public
@@ -259,6 +260,10 @@ int main()
   while (std::getline(std::cin, line))
   {
     const auto w(vv::split(line));
+    // an ill-formed individual can make the real code loop for ever (walks
+    // that never leave a row): give every history a generous time limit; the
+    // default action of SIGALRM ends the process and the check records it
+    alarm(8);
     try
     {
       if (w.size() < 9) { std::cout << "BADLINE" << std::endl; continue; }
